@@ -465,6 +465,13 @@ class Ties:
             h[0] += a
             h[1] += b
         for d in tie.disagreements:
+            step = d['case'].get('step', -1)
+            if d['facet'] == 'geo_ops' and step >= 0 and M.order_dependent(self.mg, recipe, ops, step, self.ctx.tmp):
+                # the real code gives different results for this very history from one run to the next (iteration
+                # order of a Python set): nothing to compare against
+                self.res.unstable += 1
+                self.res.count('model:discarded-order-dependent')
+                continue
             d['case'] = {'recipe': recipe, 'ops': ops, 'at': d['case']}
             self.res.disagreements.append(d)
             (self.fac_inv if d['facet'] == 'geo_inv' else self.fac_ops)['disagreements'] += 1
